@@ -126,6 +126,25 @@ class Checker:
             ("FractionScalar.repr", repr(fs), "unit='%s'" % unit),
             ("FractionScalar.str", str(fs), suffix),
         ]
+        if case.get("kind") == "simple":
+            # the same object formatted in another unit of its type, then in its own unit, then in the other one again
+            qt = q.GetQuantityType()
+            others = [i.unit for i in self.db.quantity_types.get(qt, []) if i.unit != unit]
+            if others:
+                w = others[len(unit) % len(others)]
+                t1 = s.GetFormatted(w)
+                t2 = str(s)
+                t3 = s.GetFormatted(w, "%.2f")
+                t4 = s.GetFormatted()
+                checks += [
+                    ("Scalar.GetFormatted(other unit)", t1, " [%s]" % w),
+                    ("Scalar.str after GetFormatted(other unit)", t2, suffix),
+                    ("Scalar.GetFormatted(other unit, format) after str", t3, " [%s]" % w),
+                    ("Scalar.GetFormatted() after GetFormatted(other unit)", t4, suffix),
+                ]
+                ctx.ev()
+                if t2 != str(Scalar.CreateWithQuantity(q, 1.5)):
+                    fail("value_object_text_depends_on_earlier_calls", case, "str() of %r after GetFormatted(%r) is %r, a fresh equal object prints %r" % (s, w, t2, str(Scalar.CreateWithQuantity(q, 1.5))))
         for name, text, want in checks:
             ctx.ev()
             if want not in text:
